@@ -6,15 +6,20 @@ mod alpha;
 mod big;
 mod forms;
 mod model;
+mod pairs;
 mod runner;
 mod spec;
 
+mod c01;
+mod c02;
 mod c05;
 
 use runner::Tier;
 
 fn dispatch_replay(prop: &str, w: &serde_json::Value) -> Vec<(String, String)> {
     match prop {
+        "C01" => c01::replay(w),
+        "C02" => c02::replay(w),
         "C05" => c05::replay(w),
         _ => vec![],
     }
@@ -52,6 +57,8 @@ fn main() {
         }
     };
     let code = match args[1].as_str() {
+        "C01" => c01::run(tier),
+        "C02" => c02::run(tier),
         "C05" => c05::run(tier),
         other => {
             eprintln!("unknown property {}", other);
